@@ -188,6 +188,11 @@ def main(argv=None):
     args = ap.parse_args(argv)
     prop = args.prop
     seed = int(os.environ.get("VERIF_SEED", "0") or 0)
+    # coq/Gen/*.v and the compiled verdict files belong to ONE source tree at a time: runs against /repo share this lock,
+    # a run against another tree (VERIF_REPO, used only to try seeded changes) holds it exclusively for its whole duration
+    other_tree = os.path.realpath(os.environ.get("VERIF_REPO") or "/repo") != os.path.realpath("/repo")
+    tree_lock = open(os.path.join(common.VERIF, ".tree.lock"), "w")
+    fcntl.flock(tree_lock, fcntl.LOCK_EX if other_tree else fcntl.LOCK_SH)
     t0 = time.time()
     ctx = Ctx(prop, args.tier, seed)
     mod = importlib.import_module(f"harness.props.{prop}")
